@@ -299,6 +299,10 @@ theorem RepInv.leaves (A0 : Id → Bool) : LeavesC E (RepInv A0) memberNote wher
     unfold Foca.adjustConnectionState Foca.becomeConnected Foca.becomeDisconnected
     presc
     all_goals first | exact RepInv.keepMs A0 _ (fun _ => rfl) | exact RepInv.emitNM A0 _ rfl
+  setConfig := fun cfg => by
+    unfold Foca.setConfig
+    presc
+    exact RepInv.keepMs A0 _ (fun _ => rfl)
   removeDown := fun id => ⟨fun c hc => by
     simp only [modS_run]
     rcases removeIfDown_spec c.s.ms id with h | ⟨m, hm, hp⟩
@@ -354,7 +358,7 @@ theorem notifications_replay (s : State) (op : Op) (orc : Oracle) (hn : NodupAdd
     | .done s' eff _ _ => ∀ x, isActiveId s'.ms x = replay (isActiveId s.ms) (notes eff) x
     | .stuck _ => True := by
   have L := RepInv.leaves E (isActiveId s.ms)
-  have := (L.runOp op (fun tok _ => L.probeBranch (fun _ _ => RepInv.emitNM _ _ rfl) tok)).run ⟨s, [], orc⟩ ⟨hn, fun x => rfl⟩
+  have := (L.runOp op (fun t _ ht => L.loopBranch t ht (fun _ _ _ => RepInv.emitNM _ _ rfl))).run ⟨s, [], orc⟩ ⟨hn, fun x => rfl⟩
   unfold Foca.step
   cases hr : Foca.runOp E op ⟨s, [], orc⟩ with
   | stuck x => trivial
